@@ -58,7 +58,7 @@ def _transform(root: str, kind: str) -> None:
                     tree = ast.parse(open(p, encoding="utf-8").read())
                     _rename_locals(tree, opaque=(kind == "rename-opaque"))
                     open(p, "w", encoding="utf-8").write(ast.unparse(tree) + "\n")
-    elif kind in ("swap-if-else", "flip-compare", "sort-kwargs", "temp-return", "drop-else-after-jump", "expand-augassign", "split-and"):
+    elif kind in ("swap-if-else", "flip-compare", "sort-kwargs", "temp-return", "drop-else-after-jump", "expand-augassign", "split-and", "add-logging", "annotate-assign"):
         for dp, dn, fn in os.walk(os.path.join(root, PKG)):
             for f in fn:
                 if f.endswith(".py"):
@@ -80,6 +80,7 @@ class _Refactor(_ast.NodeTransformer):
     def __init__(self, kind):
         self.kind = kind
         self.k = 0
+        self.depth = 1  # annotate-assign: module-level names included (harmless)
 
     def visit_If(self, node):
         self.generic_visit(node)
@@ -87,6 +88,37 @@ class _Refactor(_ast.NodeTransformer):
             # if c: A else: B   ->   if not c: B else: A
             node.test = _ast.UnaryOp(op=_ast.Not(), operand=node.test)
             node.body, node.orelse = node.orelse, node.body
+        return node
+
+    def visit_Module(self, node):
+        self.generic_visit(node)
+        if self.kind == "add-logging":
+            # after the docstring and __future__ imports
+            i = 0
+            while i < len(node.body) and (
+                (isinstance(node.body[i], _ast.Expr) and isinstance(node.body[i].value, _ast.Constant) and isinstance(node.body[i].value.value, str))
+                or (isinstance(node.body[i], _ast.ImportFrom) and node.body[i].module == "__future__")
+            ):
+                i += 1
+            node.body[i:i] = _ast.parse("import logging as _logging\n_log = _logging.getLogger(__name__)\n").body
+        return node
+
+    def visit_FunctionDef(self, node):
+        self.generic_visit(node)
+        if self.kind == "add-logging":
+            i = 1 if node.body and isinstance(node.body[0], _ast.Expr) and isinstance(node.body[0].value, _ast.Constant) and isinstance(node.body[0].value.value, str) else 0
+            if i == 0:
+                node.body.insert(0, _ast.Expr(value=_ast.Constant(value=f"{node.name}: see the module documentation.")))
+                i = 1
+            node.body.insert(i, _ast.parse(f"_log.debug('enter %s', {node.name!r})").body[0])
+        return node
+
+    visit_AsyncFunctionDef = visit_FunctionDef
+
+    def visit_Assign(self, node):
+        self.generic_visit(node)
+        if self.kind == "annotate-assign" and len(node.targets) == 1 and isinstance(node.targets[0], _ast.Name) and self.depth > 0:
+            return _ast.copy_location(_ast.AnnAssign(target=node.targets[0], annotation=_ast.Name(id="object", ctx=_ast.Load()), value=node.value, simple=1), node)
         return node
 
     def visit_AugAssign(self, node):
